@@ -238,7 +238,7 @@ def _worker(cases):
 
 
 def run(chk):
-    depth = 2 if chk.quick else 3
+    depth = 2 if chk.quick else 4
     cfg = tlc.cfg(constants={"Depth": depth}, invariants=["Out", "Laws"])
     r = chk.tlc("GqlCoerce", cfg, tags=["COE"], label="GqlCoerce depth<=%d" % depth)
     if r.rc != 0:
